@@ -205,7 +205,7 @@ func (a *remoteAuthorizer) WithConfig(rawConfig map[string]any) (Authorizer, err
 		Payload                  template.Template `mapstructure:"payload"`
 		Expressions              []Expression      `mapstructure:"expressions"                          validate:"dive"`
 		ResponseHeadersToForward []string          `mapstructure:"forward_response_headers_to_upstream"`
-		CacheTTL                 time.Duration     `mapstructure:"cache_ttl"`
+		CacheTTL                 *time.Duration    `mapstructure:"cache_ttl"`
 		Values                   values.Values     `mapstructure:"values"`
 	}
 
@@ -227,7 +227,10 @@ func (a *remoteAuthorizer) WithConfig(rawConfig map[string]any) (Authorizer, err
 		expressions: x.IfThenElse(len(expressions) != 0, expressions, a.expressions),
 		headersForUpstream: x.IfThenElse(len(conf.ResponseHeadersToForward) != 0,
 			conf.ResponseHeadersToForward, a.headersForUpstream),
-		ttl: x.IfThenElse(conf.CacheTTL > 0, conf.CacheTTL, a.ttl),
+		// a rule may also switch caching off (0s)
+		ttl: x.IfThenElseExec(conf.CacheTTL != nil,
+			func() time.Duration { return *conf.CacheTTL },
+			func() time.Duration { return a.ttl }),
 		v:   a.v.Merge(conf.Values),
 	}, nil
 }
